@@ -1,0 +1,45 @@
+//go:build verif
+
+package gomavlib
+
+import (
+	"io"
+	"time"
+)
+
+// Verification hooks (build tag "verif" only). They are never compiled into a normal build.
+
+var verifHook func(point string, ch *Channel)
+
+// VerifSetHook installs a function called at the instrumented points of the node
+// (nil removes it). The function may block: a blocked goroutine is a goroutine the
+// scheduler has not run yet.
+func VerifSetHook(h func(point string, ch *Channel)) {
+	verifHook = h
+}
+
+func verifPoint(point string, ch *Channel) {
+	if h := verifHook; h != nil {
+		h(point, ch)
+	}
+}
+
+// VerifSetSerialOpenFunc replaces the function used to open serial ports.
+func VerifSetSerialOpenFunc(f func(device string, baud int) (io.ReadWriteCloser, error)) {
+	serialOpenFunc = f
+}
+
+// VerifSetReconnectPeriod replaces the reconnection period of client endpoints.
+func VerifSetReconnectPeriod(d time.Duration) {
+	reconnectPeriod = d
+}
+
+// VerifChannelEndpointIndex returns the position of the endpoint of a channel in Node.Endpoints, -1 if unknown.
+func VerifChannelEndpointIndex(n *Node, ch *Channel) int {
+	for i, conf := range n.Endpoints {
+		if ch != nil && ch.endpoint != nil && ch.endpoint.Conf() == conf {
+			return i
+		}
+	}
+	return -1
+}
